@@ -50,7 +50,7 @@ int main(int argc, char** argv)
         Partition* part = new Partition(n, n, ln, ln, fc[rank], fc[rank]);
         char buf[96];
         for (int tap = 0; tap <= (np > 1 ? 2 : 0); tap++)      // 0 standard, 1 three-step node-aware, 2 two-step node-aware
-        for (int derived = 0; derived <= 1; derived++)
+        for (int derived = 0; derived <= 2; derived++)      // 2: on-process and off-process columns filtered alike (owners and requesters drop the same global columns)
         {
             CURTAP = tap;
             snprintf(buf, 96, "build/%s%s/kind%d/style%d/it%d/n%d", tap == 2 ? "tap2" : tap ? "tap" : "std", derived ? "/derived" : "", kind, style, it, n); AB(buf);
@@ -66,14 +66,30 @@ int main(int argc, char** argv)
                 }
                 int ctr = 0; for (int j = 0; j < on; j++) col_to_new[j] = keep[j] ? ctr++ : -1;
             }
+            // derived == 2: one global keep mask; a dropped column is dropped by its owner and by everybody who requests it
+            std::vector<int> keepg(n, 1), on_to_new(ln, -1);
+            int lnx = ln;
+            if (derived == 2) {
+                vh::Rng gk(E.seed * 13 + it * 257 + 29);
+                for (int c = 0; c < n; c++) keepg[c] = gk.coin(2, 3);
+                for (int r = 0; r < np; r++) { std::vector<int> f; for (size_t j = 0; j < off[r].size(); j++) { bool k = keepg[off[r][j]]; if (r == rank) keep[j] = k; if (k) f.push_back(off[r][j]); } offx[r] = f; }
+                int ctr = 0; for (int j = 0; j < on; j++) col_to_new[j] = keep[j] ? ctr++ : -1;
+                lnx = 0; for (int i = 0; i < ln; i++) on_to_new[i] = keepg[fc[rank] + i] ? lnx++ : -1;
+            }
             my_off = offx[rank];
             CommPkg* comm; ParComm* pc = nullptr; CommPkg* parent = nullptr;
-            if (!tap) { ParComm* base = new ParComm(part, off[rank]); if (derived) { pc = new ParComm(base, col_to_new); parent = base; } else pc = base; comm = pc; }
-            else { TAPComm* base = tap == 1 ? new TAPComm(part, off[rank]) : new TAPComm(part, off[rank], false); if (derived) { comm = new TAPComm(base, col_to_new, nullptr); parent = base; } else comm = base; }
+            if (!tap) { ParComm* base = new ParComm(part, off[rank]); if (derived) { pc = derived == 2 ? new ParComm(base, on_to_new, col_to_new) : new ParComm(base, col_to_new); parent = base; } else pc = base; comm = pc; }
+            else { TAPComm* base = tap == 1 ? new TAPComm(part, off[rank]) : new TAPComm(part, off[rank], false);
+                   if (derived) { comm = derived == 2 ? new TAPComm(base, on_to_new, col_to_new, nullptr) : new TAPComm(base, col_to_new, nullptr); parent = base; } else comm = base; }
+            // compress a full-length local vector to the kept local columns (derived == 2) and expand a result back
+            auto squeeze = [&](const std::vector<long long>& full, int bs) { if (derived != 2) return full; std::vector<long long> v((size_t)lnx * bs);
+                for (int i = 0; i < ln; i++) if (on_to_new[i] >= 0) for (int t = 0; t < bs; t++) v[(size_t)on_to_new[i] * bs + t] = full[(size_t)i * bs + t]; return v; };
+            auto spread = [&](const std::vector<long long>& small, const std::vector<long long>& full0, int bs) { if (derived != 2) return small; std::vector<long long> v(full0);
+                for (int i = 0; i < ln; i++) if (on_to_new[i] >= 0) for (int t = 0; t < bs; t++) v[(size_t)i * bs + t] = small[(size_t)on_to_new[i] * bs + t]; return v; };
             int onx = (int)my_off.size();
 
             // ---- package structure (standard package only; the node-aware internals belong to C04)
-            if (!tap) {
+            if (!tap && derived < 2) {
                 auto rp = G(LL(pc->recv_data->procs)), ri = G(LL(pc->recv_data->indptr));
                 auto sp = G(LL(pc->send_data->procs)), si = G(LL(pc->send_data->indptr)), sx = G(LL(pc->send_data->indices));
                 if (E.want() && rank == 0) { vh::Case c("C03", "pkg"); c.i(derived); header(c, fc, offx); put_all(c, rp); put_all(c, ri); put_all(c, sp); put_all(c, si); put_all(c, sx); c.write(E.out); }
@@ -83,8 +99,10 @@ int main(int argc, char** argv)
                 snprintf(buf, 96, "fwd/%s%s/%s/bs%d", tap == 2 ? "tap2" : tap ? "tap" : "std", derived ? "/derived" : "", isint ? "int" : "double", bs); AB(buf);
                 std::vector<long long> mine(ln * bs), got;
                 vh::Rng gl(E.seed * 977 + it * 31 + rank * 7 + bs + 100 * isint); for (auto& v : mine) v = gl.range(-99, 99);
-                if (isint) { std::vector<int> x(mine.begin(), mine.end()); std::vector<int>& r = comm->communicate(x, bs); got.assign(r.begin(), r.begin() + std::min((size_t)onx * bs, r.size())); }
-                else { std::vector<double> x(mine.begin(), mine.end()); std::vector<double>& r = comm->communicate(x, bs); for (size_t k = 0; k < (size_t)onx * bs && k < r.size(); k++) got.push_back((long long)llround(r[k])); }
+                if (derived == 2) for (int i = 0; i < ln; i++) if (on_to_new[i] < 0) for (int t = 0; t < bs; t++) mine[(size_t)i * bs + t] = 0;     // dropped columns carry nothing
+                std::vector<long long> sq = squeeze(mine, bs);
+                if (isint) { std::vector<int> x(sq.begin(), sq.end()); std::vector<int>& r = comm->communicate(x, bs); got.assign(r.begin(), r.begin() + std::min((size_t)onx * bs, r.size())); }
+                else { std::vector<double> x(sq.begin(), sq.end()); std::vector<double>& r = comm->communicate(x, bs); for (size_t k = 0; k < (size_t)onx * bs && k < r.size(); k++) got.push_back((long long)llround(r[k])); }
                 auto xs = G(mine), rs = G(got);
                 if (E.want() && rank == 0) { vh::Case c("C03", "fwd"); c.i(tap).i(derived).i(isint).i(bs); header(c, fc, offx); put_all(c, xs); put_all(c, rs); c.write(E.out); }
             }
@@ -97,8 +115,9 @@ int main(int argc, char** argv)
                 for (int j = 0; j < onx; j++) for (int t = 0; t < bs; t++)
                     y[j * bs + t] = fn == 2 ? ((my_off[j] * 7 + 3) % 5 == 0 ? -1 : my_off[j] + 5) : gl.range(-9, 9);   // select: value is a function of the global index
                 for (auto& v : init) v = fn == 2 ? -1 : gl.range(-9, 9);
+                std::vector<long long> initc = squeeze(init, bs);
                 if (isint) {
-                    std::vector<int> yy(y.begin(), y.end()), rr(init.begin(), init.end());
+                    std::vector<int> yy(y.begin(), y.end()), rr(initc.begin(), initc.end());
                     if (fn == 0) comm->communicate_T(yy, rr, bs);
                     // standard package: only the owner-side reduction is the caller's (the sender-side function keeps its default)
                     else if (fn == 1 && !tap) comm->communicate_T(yy, rr, bs, std::function<int(int,int)>([](int a, int b){ return std::max(a, b); }));
@@ -107,18 +126,19 @@ int main(int argc, char** argv)
                     else comm->communicate_T(yy, rr, bs, std::function<int(int,int)>(select_func), std::function<int(int,int)>(select_func), -1);
                     res.assign(rr.begin(), rr.end());
                 } else {
-                    std::vector<double> yy(y.begin(), y.end()), rr(init.begin(), init.end());
+                    std::vector<double> yy(y.begin(), y.end()), rr(initc.begin(), initc.end());
                     if (fn == 0) comm->communicate_T(yy, rr, bs);
                     else if (!tap) comm->communicate_T(yy, rr, bs, std::function<double(double,double)>([](double a, double b){ return std::max(a, b); }));
                     else comm->communicate_T(yy, rr, bs, std::function<double(double,double)>([](double a, double b){ return std::max(a, b); }),
                                              std::function<double(double,double)>([](double a, double b){ return std::max(a, b); }), -1000000.0);
                     for (double v : rr) res.push_back((long long)llround(v));
                 }
+                res = spread(res, init, bs);
                 auto ys = G(y), is = G(init), rs = G(res);
                 if (E.want() && rank == 0) { vh::Case c("C03", "rev"); c.i(tap).i(derived).i(fn).i(bs); header(c, fc, offx); put_all(c, ys); put_all(c, is); put_all(c, rs); c.write(E.out); }
             }
             // ---- conditional exchange (standard package): entries whose label passes the predicate
-            if (!tap) {
+            if (!tap && derived < 2) {
                 AB("cond/std");
                 vh::Rng gs(E.seed * 53 + it * 3);      // labels: same stream on all ranks -> both sides evaluate the predicate on equal labels
                 std::vector<int> lab(n); for (auto& v : lab) v = gs.below(3) - 1;
